@@ -236,9 +236,9 @@ func c07GenBlob(t *rapid.T, label string, lens []int) c07Blob {
 var c07Alphabets = []string{
 	"abcdefghijklmnopqrstuvwxyzABCDEFGHIJKLMNOPQRSTUVWXYZ0123456789_",
 	" !\"#$%&'()*+,-./:;<=>?@[]^`{|}~",
-	"äöüßéèñçøåÆ",         // 2-byte UTF-8
-	"日本語テキスト漢字€‰",        // 3-byte UTF-8
-	"§ �\t\n", // section sign, line separator, replacement char, controls
+	"äöüßéèñçøåÆ", // 2-byte UTF-8
+	"日本語テキスト漢字€‰", // 3-byte UTF-8
+	"§ �\t\n",     // section sign, line separator, replacement char, controls
 }
 
 // c07GenText: BMP text without U+0000 (so NBT modified UTF-8 == UTF-8), of a
